@@ -236,6 +236,26 @@ def pair_case(eg, i, cplx):
     if o in ("add", "sub"):
         b = T.rooted(gen, k2, m, n, cplx=cplx, depth=1)
         return (dict(op=o, x=leaf(a), y=leaf(b)), ("Sum",)) if b else None
+    if o in ("add_bad", "dot_bad"):
+        # operands of incompatible shape, the root kinds rotating through ALL kinds (Identity / ScalarMul / Diagonal operands
+        # are consumed by simplification rules that never build a Sum / Product): must be rejected
+        if o == "add_bad":
+            b = T.rooted(gen, k2, m + 1, n, cplx=cplx, depth=1) or T.rooted(gen, k2, m + 1, m + 1, cplx=cplx, depth=1)
+            if b is None or T.shape(b) == (m, n):
+                return None
+            x_, y_ = (leaf(a), leaf(b)) if r.random() < 0.5 else (leaf(b), leaf(a))
+            return dict(op=r.choice(["add", "sub"]), x=x_, y=y_), None
+        if "dot_identity_ambiguous" in eg.present and "Ident" in (k1, k2):
+            return None
+        if r.random() < 0.5:
+            b = T.rooted(gen, k2, n + 1, None, cplx=cplx, depth=1)
+            if b is None or T.shape(b)[0] == n:
+                return None
+            return dict(op="dot", x=leaf(a), y=leaf(b)), None
+        b = T.rooted(gen, k2, None, m + 1, cplx=cplx, depth=1)
+        if b is None or T.shape(b)[1] == m:
+            return None
+        return dict(op="dot", x=leaf(b), y=leaf(a)), None
     if o == "dot":
         b = T.rooted(gen, k2, n, None, cplx=cplx, depth=1)
         if b is None or ("dot_identity_ambiguous" in eg.present and "Ident" in (k1, k2)):
@@ -384,7 +404,7 @@ def run(ctx):
     n = ctx.budget(500, 5000)
     cases, obs = [], []
     tries = 0
-    ops_u = ["mul", "neg", "div", "add", "sub", "dot", "kron", "kronsum", "kron3r", "kron3l", "block"]
+    ops_u = ["mul", "neg", "div", "add", "sub", "dot", "kron", "kronsum", "kron3r", "kron3l", "block", "add_bad", "dot_bad"]
     eg.combos = [(o_, k_) for o_ in ops_u for k_ in ALLK]
     rnd.shuffle(eg.combos)
     pc_i = 0   # position in the (combinator x root kind) sweep: 198 combinations, all visited in every run
